@@ -106,6 +106,30 @@ type setVar struct {
 	name string
 	v    int64
 }
+
+// closureIdx: an index variable that a closure assigns; the closure is called
+// after a later plain assignment, so the value at the access is the closure's.
+type closureIdx struct {
+	tag    string
+	k      string
+	v0, v1 int64 // declared value, value the closure assigns
+	v2     int64 // assigned textually between the closure and its call
+	arr    string
+}
+
+// set2Stmt: two element stores through an array passed by value (i32 arrays).
+type set2Stmt struct {
+	tag  string
+	arr  string
+	i, j int64
+	v, w value
+}
+
+// copyStmt: dst = src (two array variables of the same type).
+type copyStmt struct {
+	tag      string
+	dst, src string
+}
 type ifStmt struct {
 	arr  string
 	op   string // ">" "==" "<"
@@ -172,6 +196,9 @@ func (s printIdx) emit(b *strings.Builder, ind string) {
 }
 func (s printIdx) run(e *env) bool {
 	e.println(s.tag)
+	return s.runNoTag(e)
+}
+func (s printIdx) runNoTag(e *env) bool {
 	i := s.i.eval(e)
 	p, ok := norm(i, e.length(s.x))
 	if !ok {
@@ -218,6 +245,41 @@ func (s assignStmt) run(e *env) bool {
 		return false
 	}
 	e.arrs[s.arr][p] = s.v.out
+	return true
+}
+
+func (s closureIdx) emit(b *strings.Builder, ind string) {
+	fmt.Fprintf(b, "%sio::Println(\"%s\");\n%slet %s: i32 = %d;\n%slet f%s := fn() {\n%s    %s = %d;\n%s};\n%s%s = %d;\n%sf%s();\n%sio::Println(%s[%s]);\n",
+		ind, s.tag, ind, s.k, s.v0, ind, s.k, ind, s.k, s.v1, ind, ind, s.k, s.v2, ind, s.k, ind, s.arr, s.k)
+}
+func (s closureIdx) run(e *env) bool {
+	e.println(s.tag)
+	e.vars[s.k] = s.v1
+	return printIdx{"", s.arr, varRef{s.k}}.runNoTag(e)
+}
+
+func (s set2Stmt) emit(b *strings.Builder, ind string) {
+	fmt.Fprintf(b, "%sio::Println(\"%s\");\n%sset2(%s, %d, %s, %d, %s);\n", ind, s.tag, ind, s.arr, s.i, s.v.src, s.j, s.w.src)
+}
+func (s set2Stmt) run(e *env) bool {
+	e.println(s.tag)
+	for _, st := range [][2]any{{s.i, s.v}, {s.j, s.w}} {
+		p, ok := norm(st[0].(int64), len(e.arrs[s.arr]))
+		if !ok {
+			e.oobKind = "write"
+			return false
+		}
+		e.arrs[s.arr][p] = st[1].(value).out
+	}
+	return true
+}
+
+func (s copyStmt) emit(b *strings.Builder, ind string) {
+	fmt.Fprintf(b, "%sio::Println(\"%s\");\n%s%s = %s;\n", ind, s.tag, ind, s.dst, s.src)
+}
+func (s copyStmt) run(e *env) bool {
+	e.println(s.tag)
+	e.arrs[s.dst] = append([]string(nil), e.arrs[s.src]...)
 	return true
 }
 
@@ -551,6 +613,9 @@ func (g *gen) invalidIndex(x string) int64 {
 
 func (g *gen) names() (arrs []string, all []string) {
 	for _, n := range core.SortedKeys(g.e.arrs) {
+		if strings.HasPrefix(n, "c") {
+			continue // scratch targets of array-to-array assignments: used once, never appended to
+		}
 		arrs = append(arrs, n)
 		all = append(all, n)
 	}
@@ -667,7 +732,7 @@ func GenerateFor(r *core.Rng, maxOps int, wantOOB bool, target string) *Program 
 		case x < 77:
 			run(printLen{g.tag(), core.Pick(r, all)})
 			g.shape = append(g.shape, "len")
-		case x < 81: // re-assign the variable from a fresh literal (a new, usually shorter, length)
+		case x < 79: // re-assign the variable from a fresh literal (a new, usually shorter, length)
 			a := core.Pick(r, arrs)
 			n := r.Range(1, 4)
 			st := reassignStmt{tag: g.tag(), arr: a}
@@ -677,6 +742,52 @@ func GenerateFor(r *core.Rng, maxOps int, wantOOB bool, target string) *Program 
 			g.litLen[a] = n
 			run(st)
 			g.shape = append(g.shape, "reassign")
+		case x < 81: // an index variable assigned by a closure that runs after a later plain assignment
+			a := core.Pick(r, arrs)
+			n := int64(g.e.length(a))
+			if n == 0 {
+				continue
+			}
+			loopN++
+			st := closureIdx{tag: g.tag(), k: fmt.Sprintf("q%d", loopN), v0: int64(r.Intn(int(n))), v1: g.validIndex(a), v2: n + int64(r.Intn(5)), arr: a}
+			if r.Chance(1, 3) {
+				st.v2 = -n - 1 - int64(r.Intn(3))
+			}
+			run(st)
+			g.shape = append(g.shape, "closure-index")
+		case x < 82: // two stores through an array passed by value
+			var cands []string
+			for _, a := range arrs {
+				if (g.types[a] == "" || g.types[a] == "i32") && g.e.length(a) >= 1 {
+					cands = append(cands, a)
+				}
+			}
+			if len(cands) == 0 {
+				continue
+			}
+			a := core.Pick(r, cands)
+			run(set2Stmt{g.tag(), a, g.validIndex(a), g.validIndex(a), g.val("i32"), g.val("i32")})
+			run(printIdx{g.tag(), a, g.index(g.validIndex(a), a, "")})
+			g.shape = append(g.shape, "param-stores")
+		case x < 83: // an array variable with a known literal length takes over another array of unknown length
+			a := core.Pick(r, arrs)
+			n := int64(g.e.length(a))
+			if n < 2 {
+				continue
+			}
+			loopN++
+			cv := fmt.Sprintf("c%d", loopN)
+			d := declArr{name: cv, typ: g.types[a]}
+			for j := r.Range(1, int(n)-1); j > 0; j-- {
+				d.vals = append(d.vals, g.val(g.types[a]))
+			}
+			g.types[cv] = g.types[a]
+			run(d)
+			run(copyStmt{g.tag(), cv, a})
+			run(printIdx{g.tag(), cv, lit(n - 1)})
+			run(printIdx{g.tag(), cv, lit(-n)})
+			// (the two names now denote the same array: cv is only read, right here, and never used again)
+			g.shape = append(g.shape, "array-copy")
 		case x < 85: // a literal re-assignment on one path only, then a read that is valid for what really happened
 			a := core.Pick(r, arrs)
 			n := int64(g.e.length(a))
@@ -877,6 +988,9 @@ func Build(top []stmt, consts []cst) *Program {
 	var body strings.Builder
 	for _, s := range top {
 		s.emit(&body, "    ")
+	}
+	if strings.Contains(body.String(), "set2(") {
+		b.WriteString("fn set2(a: []i32, i: i32, v: i32, j: i32, w: i32) {\n    a[i] = v;\n    a[j] = w;\n}\n\n")
 	}
 	for _, f := range [][2]string{{"idx64", "i64"}, {"idxu32", "u32"}, {"idxu64", "u64"}} {
 		if strings.Contains(body.String(), f[0]+"(") {
